@@ -205,7 +205,7 @@ func genC13(env *core.Env, emit func(core.Case)) {
 		idx++
 		d := &gen.DNSBuilder{}
 		nAns, nAuth := 1+r.IntN(4), r.IntN(3)
-		d.Header(uint16(r.IntN(65536)), 0x8180, 1, nAns, nAuth, 0)
+		d.Header(uint16(r.IntN(65536)), []uint16{0x8180, 0x81a0, 0x8190, 0x81b0, 0x8580, 0x85a0}[r.IntN(6)], 1, nAns, nAuth, 0)
 		qlabels := append(gen.RandLabels(r, 3), gen.RandLabel(r))
 		d.Question(r, gen.NamePlain, qlabels, 1, 1)
 		styles := []gen.NameStyle{gen.NamePtrOnly, gen.NamePtrOnly, gen.NameCompressed, gen.NamePlain}
@@ -252,7 +252,7 @@ func genC13(env *core.Env, emit func(core.Case)) {
 	for i := 0; i < env.Pick(300, 4000); i++ {
 		idx++
 		d := &gen.DNSBuilder{}
-		d.Header(uint16(r.IntN(65536)), 0x8180, 1, 1, 0, 0)
+		d.Header(uint16(r.IntN(65536)), []uint16{0x8180, 0x81a0, 0x8190, 0x81b0}[r.IntN(4)], 1, 1, 0, 0)
 		labels := gen.RandLabels(r, 4)
 		typ := []int{65, 65, 64}[r.IntN(3)]
 		d.Question(r, gen.NameStyle(0), labels, typ, 1)
@@ -339,6 +339,9 @@ func genC13(env *core.Env, emit func(core.Case)) {
 			name := ""
 			if nl > 0 {
 				name = dnsName(r.IntN, nl)
+			}
+			if (nl+rep)%4 == 1 && nl < 253 {
+				name += "." // the same name written as an absolute one (the root: ".") - one trailing dot is not a label
 			}
 			m := &dns.Message{ID: uint16(r.IntN(65536)), RD: 1, Question: []dns.Question{{Name: name, Type: 65, Class: 1}}}
 			optKind := r.IntN(4)
@@ -576,7 +579,9 @@ func dnsmessageBuild(r *rand.Rand) ([]byte, string, string) {
 		return dnsmessage.MustNewName(n)
 	}
 	buf := make([]byte, 2, 514)
-	bld := dnsmessage.NewBuilder(buf, dnsmessage.Header{ID: uint16(r.IntN(65536)), Response: true, RecursionAvailable: r.IntN(2) == 0, RCode: dnsmessage.RCode(r.IntN(6))})
+	bld := dnsmessage.NewBuilder(buf, dnsmessage.Header{ID: uint16(r.IntN(65536)), Response: true, RecursionAvailable: r.IntN(2) == 0, RCode: dnsmessage.RCode(r.IntN(6)),
+		// a validating resolver's answers carry AD; CD and AA occur too (RFC 4035 assigned two of the old Z bits)
+		AuthenticData: r.IntN(2) == 0, CheckingDisabled: r.IntN(4) == 0, Authoritative: r.IntN(4) == 0, RecursionDesired: r.IntN(2) == 0})
 	bld.EnableCompression()
 	bld.StartQuestions()
 	q := dnsmessage.Question{Name: sub(), Type: dnsmessage.TypeA, Class: dnsmessage.ClassINET}
